@@ -3,6 +3,7 @@ package pos
 import (
 	"fmt"
 	"github.com/pokt-network/posmint/x/pos/keeper"
+	"sort"
 	"time"
 
 	sdk "github.com/pokt-network/posmint/types"
@@ -104,16 +105,29 @@ func InitGenesis(ctx sdk.Ctx, keeper keeper.Keeper, supplyKeeper types.AuthKeepe
 			return false
 		},
 	)
-	// update signing information from genesis state
-	for addr, info := range data.SigningInfos {
+	// update signing information from genesis state (in sorted key order: the writes go
+	// straight into the merkle tree, whose shape depends on insertion order)
+	signingInfoAddrs := make([]string, 0, len(data.SigningInfos))
+	for addr := range data.SigningInfos {
+		signingInfoAddrs = append(signingInfoAddrs, addr)
+	}
+	sort.Strings(signingInfoAddrs)
+	for _, addr := range signingInfoAddrs {
+		info := data.SigningInfos[addr]
 		address, err := sdk.AddressFromHex(addr)
 		if err != nil {
 			panic(err)
 		}
 		keeper.SetValidatorSigningInfo(ctx, address, info)
 	}
-	// update missed block information from genesis state
-	for addr, array := range data.MissedBlocks {
+	// update missed block information from genesis state (in sorted key order as well)
+	missedBlockAddrs := make([]string, 0, len(data.MissedBlocks))
+	for addr := range data.MissedBlocks {
+		missedBlockAddrs = append(missedBlockAddrs, addr)
+	}
+	sort.Strings(missedBlockAddrs)
+	for _, addr := range missedBlockAddrs {
+		array := data.MissedBlocks[addr]
 		address, err := sdk.AddressFromHex(addr)
 		if err != nil {
 			panic(err)
